@@ -357,6 +357,11 @@ pub struct DecDriver {
     /// stop (without finishing the stream) after this many calls; used to rebuild a decoder
     /// in the state it has at a given call boundary of a history
     pub stop_after_calls: Option<usize>,
+    /// place sources (and slice destinations) of histories with an odd `align` against
+    /// PROT_NONE guard pages, so that any access outside them faults (used by C06)
+    pub guard: bool,
+    g_src: Option<crate::guard::GuardRegion>,
+    g_dst: Option<crate::guard::GuardRegion>,
 }
 
 pub struct StepOut {
@@ -368,7 +373,7 @@ pub struct StepOut {
 
 impl DecDriver {
     pub fn new() -> DecDriver {
-        DecDriver { buf8: Vec::new(), buf16: Vec::new(), srcbuf: Vec::new(), exact_alloc: false, stop_after_calls: None }
+        DecDriver { buf8: Vec::new(), buf16: Vec::new(), srcbuf: Vec::new(), exact_alloc: false, stop_after_calls: None, guard: crate::guard::enabled(), g_src: None, g_dst: None }
     }
 
     /// One decode call with all per-call monitors.  Output units are appended to `out`.
@@ -395,6 +400,17 @@ impl DecDriver {
         self.srcbuf.clear();
         self.srcbuf.resize(so + src.len() + band, CANARY8);
         self.srcbuf[so..so + src.len()].copy_from_slice(src);
+        let use_guard = self.guard && (align & 1 == 1) && src.len() <= 16384 && cap <= 8192;
+        // (pointer, length) of the source the call will see
+        let (sp, sl): (*const u8, usize) = if use_guard {
+            let g = self.g_src.get_or_insert_with(|| crate::guard::GuardRegion::new(16));
+            // ends at the rear guard page, or starts right after the front one
+            let s = if align & 2 == 0 { g.end_u8(src.len()) } else { g.start_u8(src.len()) };
+            s.copy_from_slice(src);
+            (s.as_ptr(), s.len())
+        } else {
+            (self.srcbuf[so..so + src.len()].as_ptr(), src.len())
+        };
         let mut faults: Vec<(FaultKind, String)> = Vec::new();
         let result: Result<(Res, usize, usize, bool), String>;
         let mut written_units8: Option<(usize, usize)> = None; // (offset, cap) in buf8
@@ -402,6 +418,51 @@ impl DecDriver {
         let mut string_out: Option<String> = None;
         let prefix = "pre\u{E9}";
         match sink {
+            Sink::Utf8 if use_guard => {
+                let sb = unsafe { std::slice::from_raw_parts(sp, sl) };
+                let g = self.g_dst.get_or_insert_with(|| crate::guard::GuardRegion::new(16));
+                let db = g.end_u8(cap);
+                for b in db.iter_mut() {
+                    *b = fill;
+                }
+                result = catch(|| {
+                    if repl {
+                        let (r, rd, wr, f) = dec.decode_to_utf8(sb, db, last);
+                        (coder(r), rd, wr, f)
+                    } else {
+                        let (r, rd, wr) = dec.decode_to_utf8_without_replacement(sb, db, last);
+                        (decr(r), rd, wr, false)
+                    }
+                });
+                self.buf8.clear();
+                self.buf8.resize(BAND, CANARY8);
+                self.buf8.extend_from_slice(db);
+                self.buf8.resize(BAND + cap + BAND, CANARY8);
+                written_units8 = Some((BAND, cap));
+            }
+            Sink::Utf16 if use_guard => {
+                let sb = unsafe { std::slice::from_raw_parts(sp, sl) };
+                let g = self.g_dst.get_or_insert_with(|| crate::guard::GuardRegion::new(16));
+                let db = g.end_u16(cap);
+                let f16 = (fill as u16) << 8 | fill as u16;
+                for b in db.iter_mut() {
+                    *b = f16;
+                }
+                result = catch(|| {
+                    if repl {
+                        let (r, rd, wr, f) = dec.decode_to_utf16(sb, db, last);
+                        (coder(r), rd, wr, f)
+                    } else {
+                        let (r, rd, wr) = dec.decode_to_utf16_without_replacement(sb, db, last);
+                        (decr(r), rd, wr, false)
+                    }
+                });
+                self.buf16.clear();
+                self.buf16.resize(BAND, CANARY16);
+                self.buf16.extend_from_slice(db);
+                self.buf16.resize(BAND + cap + BAND, CANARY16);
+                written_units16 = Some((BAND, cap));
+            }
             Sink::Utf8 => {
                 let off = band + (align & 15);
                 if self.exact_alloc {
@@ -412,7 +473,7 @@ impl DecDriver {
                 for b in &mut self.buf8[off..off + cap] {
                     *b = fill;
                 }
-                let (sb, db) = (&self.srcbuf[so..so + src.len()], &mut self.buf8[off..off + cap]);
+                let (sb, db) = (unsafe { std::slice::from_raw_parts(sp, sl) }, &mut self.buf8[off..off + cap]);
                 result = catch(|| {
                     if repl {
                         let (r, rd, wr, f) = dec.decode_to_utf8(sb, db, last);
@@ -435,7 +496,7 @@ impl DecDriver {
                 for b in &mut self.buf16[off..off + cap] {
                     *b = f16;
                 }
-                let (sb, db) = (&self.srcbuf[so..so + src.len()], &mut self.buf16[off..off + cap]);
+                let (sb, db) = (unsafe { std::slice::from_raw_parts(sp, sl) }, &mut self.buf16[off..off + cap]);
                 result = catch(|| {
                     if repl {
                         let (r, rd, wr, f) = dec.decode_to_utf16(sb, db, last);
@@ -457,7 +518,7 @@ impl DecDriver {
                 for _ in 0..BAND {
                     s.push('c');
                 }
-                let sb = &self.srcbuf[so..so + src.len()];
+                let sb = unsafe { std::slice::from_raw_parts(sp, sl) };
                 let r = {
                     let dst: &mut str = &mut s[BAND..BAND + cap];
                     catch(|| {
@@ -496,7 +557,7 @@ impl DecDriver {
                 }
                 let ptr_before = s.as_ptr();
                 let cap_before = s.capacity();
-                let sb = &self.srcbuf[so..so + src.len()];
+                let sb = unsafe { std::slice::from_raw_parts(sp, sl) };
                 let r = catch(|| {
                     if repl {
                         let (r, rd, f) = dec.decode_to_string(sb, &mut s, last);
@@ -522,7 +583,7 @@ impl DecDriver {
             }
         }
         // source must be unchanged
-        if &self.srcbuf[so..so + src.len()] != src || self.srcbuf[..so].iter().any(|b| *b != CANARY8) || self.srcbuf[so + src.len()..].iter().any(|b| *b != CANARY8) {
+        if unsafe { std::slice::from_raw_parts(sp, sl) } != src || self.srcbuf[..so].iter().any(|b| *b != CANARY8) || self.srcbuf[so + src.len()..].iter().any(|b| *b != CANARY8) {
             faults.push((FaultKind::Bounds, "source buffer (or its surroundings) was modified".into()));
         }
         let dst_len = match &string_out {
@@ -597,6 +658,13 @@ impl DecDriver {
     /// Run the history on `dec`; `before_call` is invoked before every call with the decoder and the
     /// number of stream bytes consumed so far (used by C19 to interleave queries).
     pub fn run_with(&mut self, h: &DecHistory, dec: &mut Decoder, before_call: &mut dyn FnMut(&mut Decoder, usize)) -> DecOutcome {
+        crate::guard::set_current(h as *const DecHistory as *const (), render_dec_history);
+        let out = self.run_with_inner(h, dec, before_call);
+        crate::guard::clear_current();
+        out
+    }
+
+    fn run_with_inner(&mut self, h: &DecHistory, dec: &mut Decoder, before_call: &mut dyn FnMut(&mut Decoder, usize)) -> DecOutcome {
         let mut out = DecOutcome::default();
         let n = h.stream.len();
         let mut bounds: Vec<usize> = Vec::with_capacity(h.cuts.len() + 2);
@@ -701,6 +769,11 @@ impl DecDriver {
         out.final_enc = Some(dec.encoding());
         out
     }
+}
+
+fn render_dec_history(p: *const ()) -> String {
+    let h = unsafe { &*(p as *const DecHistory) };
+    h.to_json().to_string()
 }
 
 fn coder(r: CoderResult) -> Res {
